@@ -94,6 +94,12 @@ def run(tier, seed, replay_path=None):
     ck.fork_map(items, lambda c, it: explore_item(c, it, tier))
     from . import runtime_checks
     runtime_checks.run_accept_loop(ck, tier)
+    r, desc, sc = runtime_checks.native_accept(ck)
+    if r is None:
+        ck.replays_ok += 1
+    else:
+        ck.replays_bad += 1
+        ck.inconclusive.append('native accept-side run disagrees with the engine (which proved the limit): ' + desc)
     native_slots(ck)
     for need in ('accept loop: some connection waits', 'accept loop: all served', 'ending: quit', 'ending: quitq', 'ending: oversized', 'ending: clean/eof', 'ending: partial/eof', 'ending: partial/error',
                  'ending: corrupt/eof', 'ending: idle timeout fired', 'ending: write failed'):
